@@ -56,6 +56,10 @@ func runC16(c *Ctx) {
 				if !c.Quick() && r%7 == 3 {
 					bits = 3072
 				}
+				if (i+r)%5 == 2 {
+					// a modulus whose bit length is not a multiple of 8 (`openssl genrsa 2047`)
+					bits = 2047
+				}
 				key := rsaKey(bits, (i+r)%2)
 				cert := mintCert(key, genIssuer(rng), genSerial(rng))
 				if rng.Intn(2) == 0 {
